@@ -42,7 +42,7 @@ var c11WaitScale = 1 // raised by C11_WAIT_SCALE for experiments
 var c11LockWaitAbsent bool // no call was ever seen waiting in RWMutex.RLock (library changed its locking)
 
 type c11Spec struct {
-	Fam    string   `json:"fam"` // cell | stray | multi | reconn
+	Fam    string   `json:"fam"` // cell | seq | stray | multi | reconn
 	Call   string   `json:"call,omitempty"`
 	Point  string   `json:"point,omitempty"`
 	Cause  string   `json:"cause,omitempty"`
@@ -70,6 +70,8 @@ type c11Obs struct {
 	AuxStuck string   `json:"aux_stuck,omitempty"` // an auxiliary blocking call (lock holder, Disconnect used as cause) did not return
 	All      []c11Res `json:"all,omitempty"`       // multi: every call
 	LoopGone bool     `json:"loop_gone,omitempty"` // reconn: loop goroutine gone after the scenario
+	TClosed  bool     `json:"tclosed,omitempty"`   // seq: the transport was closed at the end
+	Mid      bool     `json:"mid,omitempty"`       // seq: the intermediate observation was as expected
 	Marker   bool     `json:"marker,omitempty"`    // stray: the marker PUBLISH sent after the stray packets reached the handler
 	Note     string   `json:"note,omitempty"`
 	Crash    string   `json:"crash,omitempty"`
@@ -200,6 +202,13 @@ func c11IsReader(st string) bool {
 
 func c11IsLoop(st string) bool { return strings.Contains(st, "(*reconnectClient).Connect.func1") }
 
+// the reconnect loop goroutine parked in a select of its own (not inside Dial / Connect / Done)
+func c11LoopInBackoff(st string) bool {
+	lines := strings.Split(st, "\n")
+	return len(lines) >= 2 && strings.Contains(lines[0], "[select") &&
+		strings.HasPrefix(lines[1], c11LibMark+"(*reconnectClient).Connect.func1(")
+}
+
 func c11InRLock(st string) bool {
 	return strings.Contains(st, "sync.(*RWMutex).RLock") || strings.Contains(st, "sync.(*RWMutex).Lock")
 }
@@ -216,19 +225,61 @@ type c11Peer struct {
 	answer  bool // answer every request (used for preludes); otherwise the answers are withheld
 	lastID  map[byte]uint16
 	usedIDs map[uint16]bool
+	// the peer stops reading: a Write of a packet of type stallType blocks until the transport is closed locally
+	stallType byte
+	// the transport reports an error for the next packet of type failType and stays open
+	failType byte
+	// what CONNECT is answered with when ackConn is false: "" (nothing), refuse, close, malformed
+	connReply string
+}
+
+func (p *c11Peer) note(t byte) {
+	p.mu.Lock()
+	p.seen[t]++
+	p.mu.Unlock()
+	select {
+	case p.wake <- struct{}{}:
+	default:
+	}
 }
 
 func c11NewPeer(n int, ackConn bool) *c11Peer {
 	p := &c11Peer{seen: map[byte]int{}, wake: make(chan struct{}, 1), ackConn: ackConn, lastID: map[byte]uint16{}, usedIDs: map[uint16]bool{}}
 	p.conn = newMemConn(n, func(c *memConn, pkt []byte) error {
 		t := pkt[0] & 0xF0
+		p.mu.Lock()
+		stall, fail := p.stallType == t && t != 0, p.failType == t && t != 0
+		if fail {
+			p.failType = 0
+		}
+		p.mu.Unlock()
+		if stall {
+			p.note(t) // the call is now inside Transport.Write
+			c.mu.Lock()
+			for !c.closed {
+				c.cond.Wait()
+			}
+			c.mu.Unlock()
+			return errClosedConn
+		}
+		if fail {
+			p.note(t)
+			return errCut
+		}
 		switch t {
 		case 0x10:
 			p.mu.Lock()
-			ack := p.ackConn
+			ack, reply := p.ackConn, p.connReply
 			p.mu.Unlock()
-			if ack {
+			switch {
+			case ack:
 				c.send(connackOK)
+			case reply == "refuse":
+				c.send([]byte{0x20, 2, 0, 5}) // not authorized
+			case reply == "close":
+				c.finish()
+			case reply == "malformed":
+				c.send(c11BadPacket)
 			}
 		case 0x30:
 			// a QoS 2 PUBLISH on topic "p2" is answered with PUBREC: the call then parks waiting PUBCOMP
@@ -265,16 +316,22 @@ func c11NewPeer(n int, ackConn bool) *c11Peer {
 				c.send([]byte{0xD0, 0})
 			}
 		}
-		p.mu.Lock()
-		p.seen[t]++
-		p.mu.Unlock()
-		select {
-		case p.wake <- struct{}{}:
-		default:
-		}
+		p.note(t)
 		return nil
 	})
 	return p
+}
+
+func (p *c11Peer) setStall(t byte) {
+	p.mu.Lock()
+	p.stallType = t
+	p.mu.Unlock()
+}
+
+func (p *c11Peer) setFail(t byte) {
+	p.mu.Lock()
+	p.failType = t
+	p.mu.Unlock()
 }
 
 func (p *c11Peer) answering() bool {
@@ -418,7 +475,7 @@ func c11Classify(r c11Ret, ctx context.Context) c11Res {
 		out.Res = "ctx"
 	case errors.Is(err, mqtt.ErrClosedTransport):
 		out.Res = "closed"
-	case errors.Is(err, errClosedConn):
+	case errors.Is(err, errClosedConn), errors.Is(err, errCut):
 		out.Res = "write"
 	default:
 		out.Res = "other"
@@ -596,7 +653,10 @@ func c11RunCellOnce(sp c11Spec, deadline time.Duration) (obs c11Obs, deadlineEar
 			}
 		}
 		ret = c11Go(func() error { return c11Invoke(call, false, cli, rc, ctx) })
-	default: // wait1, wait2
+	default: // wait1, wait2, inwrite
+		if point == "inwrite" {
+			peer.setStall(c11ReqType(call, false))
+		}
 		orig := c11Go(func() error { return c11Invoke(call, wait2, cli, rc, ctx) })
 		returned := make(chan struct{})
 		proxy := make(chan c11Ret, 1)
@@ -727,6 +787,107 @@ func c11EntryCell(sp c11Spec, sc *c11Scope, peer *c11Peer, cli *mqtt.BaseClient,
 	}
 	c11ObserveEnd(obs, sc, peer, cli, wait)
 	return *obs
+}
+
+// ---------------------------------------------------------------- sequences ending with a local Close()
+
+// c11RunSeq, sp.K: 0 = the call is parked inside Transport.Write (the peer stopped reading), its context is
+// cancelled (it must stay blocked: the transport does not know the context), then cli.Close();
+// 1 = Disconnect whose DISCONNECT write fails (the transport reports an error and stays open), then cli.Close();
+// 2 = successful Disconnect, then cli.Close().
+func c11RunSeq(sp c11Spec) (obs c11Obs) {
+	wait := c11Wait * time.Duration(c11WaitScale)
+	sc := c11NewScope()
+	bg := context.Background()
+	call := sp.Call
+	peer := c11NewPeer(1, call != "connect")
+	cli := &mqtt.BaseClient{Transport: peer.conn}
+	var rc *mqtt.RetryClient
+	if call == "retryping" {
+		rc = &mqtt.RetryClient{ResponseTimeout: 60 * time.Second}
+		rc.SetClient(bg, cli)
+	}
+	var cancels []context.CancelFunc
+	var pending []c11Pending
+	defer func() {
+		for _, c := range cancels {
+			c()
+		}
+		if rc != nil {
+			ctx, cancel := ctxTimeout(wait)
+			c11Await(c11Go(func() error { return rc.Disconnect(ctx) }), wait)
+			cancel()
+		}
+		cli.Close()
+		for _, p := range pending {
+			if _, ok := c11Await(p.ch, wait); !ok {
+				obs.AuxStuck += p.name + " "
+			}
+		}
+		if ok, left := sc.waitNone(nil, wait); !ok {
+			obs.Leak = left
+			obs.LeakAt = sc.stackOfNew()
+		}
+	}()
+	if call != "connect" {
+		ctx, cancel := ctxTimeout(wait)
+		err := c11Invoke("connect", false, cli, rc, ctx)
+		cancel()
+		if err != nil {
+			obs.c11Res = c11Res{Res: "other", Detail: "setup: Connect failed: " + err.Error()}
+			return obs
+		}
+	}
+	ctx, cancel := context.WithCancel(bg)
+	cancels = append(cancels, cancel)
+	closeIt := func() {
+		// Close must never panic, whatever happened before
+		if r, _ := c11Await(c11Go(func() error { cli.Close(); return nil }), wait); r.panicked != "" {
+			obs.Note = "Close panicked: " + r.panicked
+			obs.AuxStuck += "Close panicked "
+		}
+	}
+	switch sp.K {
+	case 0:
+		t := c11ReqType(call, false)
+		peer.setStall(t)
+		ret := c11Go(func() error { return c11Invoke(call, false, cli, rc, ctx) })
+		if !peer.waitSeen(t, 1, nil, wait) {
+			obs.Note = "call never reached Transport.Write"
+		}
+		cancel()
+		// sound lower bound only: still inside Write 50 ms after its cancellation
+		if _, ok := c11Await(ret, 50*time.Millisecond); !ok {
+			obs.Mid = true
+		}
+		closeIt()
+		if r, ok := c11Await(ret, wait); ok {
+			obs.c11Res = c11Classify(r, nil)
+		} else {
+			obs.c11Res = c11Res{Res: "stuck"}
+			pending = append(pending, c11Pending{"the call under test", ret})
+		}
+	case 1, 2:
+		if sp.K == 1 {
+			peer.setFail(0xE0)
+		}
+		r, ok := c11Await(c11Go(func() error { return cli.Disconnect(ctx) }), wait)
+		if !ok {
+			obs.c11Res = c11Res{Res: "stuck"}
+		} else {
+			obs.c11Res = c11Classify(r, nil)
+		}
+		if sp.K == 1 {
+			// the failed Disconnect leaves the connection up
+			obs.Mid = obs.Res == "write" && !c11DoneClosed(cli, 0) && !peer.conn.isClosed()
+		} else {
+			obs.Mid = obs.Res == "nil" && c11DoneClosed(cli, wait)
+		}
+		closeIt()
+	}
+	c11ObserveEnd(&obs, sc, peer, cli, wait)
+	obs.TClosed = peer.conn.isClosed()
+	return obs
 }
 
 // ---------------------------------------------------------------- stray acknowledgements before the cause
@@ -1019,7 +1180,9 @@ func c11RunMulti(sp c11Spec) (obs c11Obs) {
 
 type c11Dialer struct {
 	mu      sync.Mutex
-	mode    string // fail | hang | ok | gate
+	mode    string   // fail | hang | ok | gate
+	modes   []string // if set: the mode of the n-th dial (the last entry for all later ones)
+	reply   string   // what the peers answer CONNECT with when they do not accept: refuse | close | malformed
 	gate    chan struct{}
 	ackConn bool
 	dials   int
@@ -1032,10 +1195,18 @@ func (d *c11Dialer) DialContext(ctx context.Context) (*mqtt.BaseClient, error) {
 	d.mu.Lock()
 	d.dials++
 	mode, ack, gate := d.mode, d.ackConn, d.gate
+	if len(d.modes) > 0 {
+		i := d.dials - 1
+		if i >= len(d.modes) {
+			i = len(d.modes) - 1
+		}
+		mode = d.modes[i]
+	}
 	var cli *mqtt.BaseClient
 	if mode == "ok" || mode == "gate" {
 		// the peer exists before anybody can learn about this dial
 		p := c11NewPeer(d.dials, ack)
+		p.connReply = d.reply
 		cli = &mqtt.BaseClient{Transport: p.conn}
 		d.peers = append(d.peers, p)
 		d.clis = append(d.clis, cli)
@@ -1106,6 +1277,16 @@ func c11RunReconn(sp c11Spec) (obs c11Obs) {
 		d.mode = "fail"
 	case "rc_dialhang":
 		d.mode = "hang"
+	case "rc_dialfailbackoff":
+		d.mode = "fail"
+	case "rc_refusedbackoff":
+		d.mode, d.ackConn, d.reply = "ok", false, "refuse"
+	case "rc_peerclosedbackoff":
+		d.mode, d.ackConn, d.reply = "ok", false, "close"
+	case "rc_malformedbackoff":
+		d.mode, d.ackConn, d.reply = "ok", false, "malformed"
+	case "rc_refusedthendialhang":
+		d.modes, d.ackConn, d.reply = []string{"ok", "hang"}, false, "refuse"
 	case "rc_ackwithheld", "rd_waitconnack":
 		d.mode, d.ackConn = "ok", false
 	case "rd_dialinflight":
@@ -1113,7 +1294,13 @@ func c11RunReconn(sp c11Spec) (obs c11Obs) {
 	default:
 		d.mode, d.ackConn = "ok", true
 	}
-	cli, err := mqtt.NewReconnectClient(d, mqtt.WithReconnectWait(time.Millisecond, 4*time.Millisecond))
+	waitBase, waitMax := time.Millisecond, 4*time.Millisecond
+	longBackoff := strings.HasSuffix(sp.Phase, "backoff") && strings.HasPrefix(sp.Phase, "rc_")
+	if longBackoff {
+		// the loop must still be in its back-off wait when the context ends
+		waitBase, waitMax = 30*time.Second, 30*time.Second
+	}
+	cli, err := mqtt.NewReconnectClient(d, mqtt.WithReconnectWait(waitBase, waitMax))
 	if err != nil {
 		obs.c11Res = c11Res{Res: "other", Detail: err.Error()}
 		return obs
@@ -1176,9 +1363,23 @@ func c11RunReconn(sp c11Spec) (obs c11Obs) {
 	}
 	isConnect := strings.HasPrefix(sp.Phase, "rc_")
 	if isConnect {
-		ctx, cancel := mkctx(sp.Cause, 80*time.Millisecond)
+		dl := 80 * time.Millisecond
+		if longBackoff {
+			dl = 250 * time.Millisecond
+		}
+		ctx, cancel := mkctx(sp.Cause, dl)
 		startConnect(ctx)
 		switch sp.Phase {
+		case "rc_dialfailbackoff", "rc_refusedbackoff", "rc_peerclosedbackoff", "rc_malformedbackoff":
+			d.waitDials(1, wait)
+			// the attempt has failed and the loop goroutine sits in its back-off select
+			if !sc.waitSome(c11LoopInBackoff, wait) && sp.Cause != "deadline" {
+				obs.Note = "loop not seen in its back-off wait"
+			}
+		case "rc_refusedthendialhang":
+			if !d.waitDials(2, wait) && sp.Cause != "deadline" {
+				obs.Note = "second dial not seen"
+			}
 		case "rc_dialfail":
 			if !d.waitDials(3, wait) && sp.Cause != "deadline" {
 				obs.Note = "fewer than 3 dials seen"
@@ -1314,6 +1515,8 @@ func runC11Child(cfg *runCfg) error {
 			switch sp.Fam {
 			case "cell":
 				o = c11RunCell(sp)
+			case "seq":
+				o = c11RunSeq(sp)
 			case "stray":
 				o = c11RunStray(sp)
 			case "multi":
@@ -1411,11 +1614,15 @@ func (c *c11Child) kill() string {
 // ---------------------------------------------------------------- Coq encoding
 
 var c11CallCode = map[string]int{"connect": 0, "pub0": 1, "pub1": 2, "pub2": 3, "sub": 4, "unsub": 5, "ping": 6, "disconnect": 7, "retryping": 8}
-var c11PointCode = map[string]int{"entry": 0, "before": 1, "wait1": 2, "wait2": 3}
+var c11PointCode = map[string]int{"entry": 0, "before": 1, "wait1": 2, "wait2": 3, "inwrite": 4}
 var c11CauseCode = map[string]int{"cancel": 0, "deadline": 1, "localclose": 2, "localdisconnect": 3, "peerclose": 4, "malformed": 5}
 var c11ResCode = map[string]int{"stuck": 0, "nil": 1, "ctx": 2, "closed": 3, "write": 4, "other": 5, "panic": 6}
 var c11PhaseCode = map[string]int{"rc_dialfail": 0, "rc_dialhang": 1, "rc_ackwithheld": 2, "rd_never": 3, "rd_afterfailed": 4,
-	"rd_duringdialfail": 5, "rd_waitconnack": 6, "rd_connected": 7, "rd_backoffafterloss": 8}
+	"rd_duringdialfail": 5, "rd_waitconnack": 6, "rd_connected": 7, "rd_backoffafterloss": 8,
+	"rc_dialfailbackoff": 9, "rc_refusedbackoff": 10, "rc_peerclosedbackoff": 10, "rc_malformedbackoff": 10, "rc_refusedthendialhang": 11}
+
+var c11Phases = []string{"rc_dialfail", "rc_dialhang", "rc_ackwithheld", "rc_dialfailbackoff", "rc_refusedbackoff", "rc_peerclosedbackoff",
+	"rc_malformedbackoff", "rc_refusedthendialhang", "rd_never", "rd_afterfailed", "rd_duringdialfail", "rd_waitconnack", "rd_connected", "rd_backoffafterloss"}
 var c11RCauseCode = map[string]int{"none": 0, "cancel": 1, "deadline": 2}
 
 func c11Names(m map[string]int) []string {
@@ -1439,6 +1646,8 @@ func c11Valid(call, point, cause string) bool {
 		return true
 	case "wait1":
 		return n >= 1 && !(call == "connect" && cause == "localdisconnect")
+	case "inwrite":
+		return cause == "localclose" || cause == "peerclose"
 	default:
 		return n >= 2
 	}
@@ -1446,7 +1655,8 @@ func c11Valid(call, point, cause string) bool {
 
 func c11RValid(phase, cause string) bool {
 	switch phase {
-	case "rc_dialfail", "rc_dialhang", "rc_ackwithheld", "rd_never":
+	case "rc_dialfail", "rc_dialhang", "rc_ackwithheld", "rd_never", "rc_dialfailbackoff", "rc_refusedbackoff",
+		"rc_peerclosedbackoff", "rc_malformedbackoff", "rc_refusedthendialhang":
 		return cause != "none"
 	}
 	return cause == "none"
@@ -1580,6 +1790,36 @@ func runC11(cfg *runCfg) error {
 	cf.result("V_cell", "c11_cell_violations cell_cases")
 	cf.result("M_cell", "c11_cell_mismatches cell_cases")
 
+	// ---- sequences ending with Close(): stalled write + cancel + Close for every call; Disconnect (write failed /
+	// succeeded) + Close
+	var seqCases []string
+	var seqSpecs []c11Spec
+	for _, c := range c11Names(c11CallCode) {
+		seqSpecs = append(seqSpecs, c11Spec{Fam: "seq", Call: c, K: 0})
+	}
+	seqSpecs = append(seqSpecs, c11Spec{Fam: "seq", Call: "disconnect", K: 1}, c11Spec{Fam: "seq", Call: "disconnect", K: 2})
+	for round := 0; round < rounds; round++ {
+		for _, sp := range seqSpecs {
+			if hung >= maxHung {
+				skipped++
+				continue
+			}
+			o, err := exec1(sp)
+			if err != nil {
+				return err
+			}
+			seqCases = append(seqCases, cTuple(fmt.Sprint(sp.K), fmt.Sprint(c11CallCode[sp.Call]), fmt.Sprint(c11ResCode[o.Res]), cBool(o.Retry),
+				cBool(o.Done), cBool(o.RExit), cBool(o.TClosed), cBool(o.Mid), cBool(len(o.Leak) > 0 || o.AuxStuck != "" || o.Crash != "")))
+			kind := []string{"parked in Transport.Write, cancel, Close", "Disconnect whose write fails, Close", "Disconnect, Close"}[sp.K]
+			m.Families["seq"] = append(m.Families["seq"], map[string]interface{}{"sequence": kind, "call": sp.Call, "observed": o})
+			dist["seq_"+o.Res]++
+			nontrivial++
+		}
+	}
+	cf.def("seq_cases", "list c11_seq_case", cList(seqCases))
+	cf.result("V_seq", "c11_seq_violations seq_cases")
+	cf.result("M_seq", "c11_seq_mismatches seq_cases")
+
 	// ---- stray acknowledgements consumed before the cause
 	var straySpecs []c11Spec
 	for _, cp := range []string{"none@wait1", "pub1@wait1", "pub2@wait1", "pub2@wait2", "sub@wait1", "unsub@wait1", "ping@wait1"} {
@@ -1701,7 +1941,7 @@ func runC11(cfg *runCfg) error {
 	// ---- the reconnecting client
 	var rcCases []string
 	for round := 0; round < rounds; round++ {
-		for _, p := range c11Names(c11PhaseCode) {
+		for _, p := range c11Phases {
 			for _, z := range c11Names(c11RCauseCode) {
 				if !c11RValid(p, z) {
 					continue
@@ -1767,7 +2007,8 @@ func runC11(cfg *runCfg) error {
 	m.Distribution["scenarios_skipped_after_hangs"] = skipped
 	m.Distribution["stray_scenarios"] = strayRun
 	m.Distribution["stray_space"] = len(straySpecs)
-	m.Evaluations = len(cellCases) + len(strayCases) + len(multiCases) + len(rcCases)
+	m.Distribution["seq_scenarios"] = len(seqCases)
+	m.Evaluations = len(cellCases) + len(seqCases) + len(strayCases) + len(multiCases) + len(rcCases)
 	m.DistinctNontrivial = nontrivial
 	m.Exhaustive = skipped == 0
 	m.Rule = fmt.Sprintf("the whole matrix of Calls.v (%d cells: 9 calls x {waiting for the connect lock, before the write, parked in the 1st select, parked in the 2nd select} x {cancel, deadline, Close, Disconnect, peer close, malformed packet}) executed %d time(s) on a real BaseClient over an in-memory transport whose scripted peer withholds exactly the awaited answer (parked = request seen on the wire); %d of the %d 'stray acknowledgement' scenarios ({no call, QoS1, QoS2 at PUBREC, QoS2 at PUBCOMP, Subscribe, Unsubscribe, Ping parked} x {cancel, Close, Disconnect, peer close, malformed} x {1,2,3} x {PINGRESP after an answered / a timed-out Ping; repeated CONNACK; PUBACK, PUBREC, PUBCOMP, SUBACK, UNSUBACK duplicating a completed exchange / for an identifier never used}; a marker PUBLISH handed to the handler shows the reader consumed them; then the cause); %d scenarios with 2-6 random calls parked on one connection (in every third one the contexts of a random subset are cancelled first) and one connection end; %d scenarios of the reconnecting client (Connect with failing/hanging dials or CONNACK withheld + cancel/deadline; Disconnect in six phases). distinct_nontrivial = scenarios in which a call is really blocked when the cause strikes (everything except the 'before the write' cells)", len(specs), rounds, strayRun, len(straySpecs), nMulti, len(rcCases))
